@@ -682,10 +682,10 @@ def mon_C08(case):
                         and d == f"subscriber {act[0]}: in memory yes, stored no"):
                     out.append((i, f"C08 [phantom-sub] a root session attached to {t} sets private data as {act[0]} who is not subscribed: "
                                    f"the topic caches a subscriber that the store does not have"))
-                elif (re.match(r"(read|received|delete) mark of (U\d+):", d)
-                        and c["users"].get(re.match(r"(read|received|delete) mark of (U\d+):", d).group(2), {}).get("chan")):
-                    out.append((i, f"C08 [chan-marks] the marks of an attached channel reader are kept in the store only, the cached ones stay "
-                                   f"as they were when the reader attached: {d}"))
+                elif (re.match(r"delete mark of (U\d+):", d)
+                        and c["users"].get(re.match(r"delete mark of (U\d+):", d).group(1), {}).get("chan")):
+                    out.append((i, f"C08 [chan-marks] a hard deletion raised the cached delete mark of an attached channel reader, the reader's "
+                                   f"row (under the channel name) was not written: {d}"))
                 elif (w[0] == "note" and len(w) > 3 and w[3] == "read" and act is not None and ln.calls == ["SubsUpdate"]
                         and d.startswith(f"received mark of {act[0]}:")):
                     out.append((i, f"C08 [read-raises-recv] a read note raised the received mark of {act[0]} on {t} in memory only: {d}"))
@@ -715,8 +715,9 @@ def mon_C09(case):
             for u, p in c["users"].items():
                 if not (0 <= p["r"] <= p["v"] <= c["last"]):
                     pp = pre.cache.get(t, {}).get("users", {}).get(u) if pre else None
-                    st_ = ln.store.get(t, {}).get("subs", {}).get(u)
-                    if (pre is None or t not in pre.cache) and st_ is not None and (st_["r"], st_["v"]) == (p["r"], p["v"]):
+                    st_ = ln.store.get(t, {}).get("csubs" if p.get("chan") else "subs", {}).get(u)
+                    fresh = pre is None or t not in pre.cache or u not in pre.cache[t]["users"]
+                    if fresh and st_ is not None and (st_["r"], st_["v"]) == (p["r"], p["v"]):
                         continue           # loaded as stored: the stored marks were reported when they were written
                     if pp is None or (pp["r"], pp["v"]) != (p["r"], p["v"]):
                         out.append((i, f"C09 in memory {u} on {t}: read={p['r']} recv={p['v']} last={c['last']}"))
